@@ -174,6 +174,18 @@ func drawC18(rt *rapid.T) interface{} {
 			ErrKind: rapid.IntRange(0, len(errValues)-1).Draw(rt, "errkind"),
 		})
 	}
+	if rapid.IntRange(0, 24).Draw(rt, "long") == 0 {
+		// a long list: the drawn steps follow a run of succeeding ones (a list is one transaction whatever its length)
+		k := rapid.SampledFrom([]int{60, 100, 255, 256, 257, 511, 512, 513, 1000, 1023, 1024, 1025, 2000, 4097}).Draw(rt, "longn")
+		prefix := make([]step, k)
+		for i := range prefix {
+			prefix[i] = step{Kind: "ok"}
+			if i%97 == 5 {
+				prefix[i].Kind = "exec"
+			}
+		}
+		sc.Steps = append(prefix, sc.Steps...)
+	}
 	sc.FailBegin = rapid.IntRange(0, 5).Draw(rt, "fbegin") == 0
 	sc.FailCommit = rapid.IntRange(0, 3).Draw(rt, "fcommit") == 0
 	sc.FailRollback = rapid.IntRange(0, 3).Draw(rt, "frollback") == 0
@@ -416,6 +428,9 @@ func runC18(t *testing.T, sci interface{}, keepLog bool) *hx.Outcome {
 		o.Log = log
 	}
 	o.Steps = len(fdb.events)
+	if len(sc.Steps) > 50 {
+		o.Counts["list-of-more-than-50-steps"]++
+	}
 	o.Nontrivial = len(sc.Steps) >= 1
 	return o
 }
@@ -441,9 +456,9 @@ func TestC18(t *testing.T) {
 		Run:         runC18,
 		Real:        []string{"store/gormx.Transact and Combine (unmodified)", "gorm v1.25.1 (Begin/Commit/Rollback/Exec)", "gorm MySQL dialector v1.5.1", "database/sql"},
 		Stubs:       []string{"database/sql/driver (in-process fake: records begin/commit/rollback/exec, fails begin, commit, rollback or the n-th exec on demand)"},
-		Rule: "scenario = 0-5 steps, each succeeding, returning an error (its own, or a well-known value: context.Canceled / DeadlineExceeded also wrapped, sql.ErrTxDone / ErrConnDone, gorm.ErrRecordNotFound, driver.ErrBadConn, io.EOF - with the transaction's context alive), panicking or executing a statement through the transaction (the n-th exec may fail), optionally wrapped in Combine groups, x begin / commit / rollback each failing or not; " +
+		Rule: "scenario = 0-5 steps (1 in 25: preceded by a run of 60-4097 succeeding steps), each succeeding, returning an error (its own, or a well-known value: context.Canceled / DeadlineExceeded also wrapped, sql.ErrTxDone / ErrConnDone, gorm.ErrRecordNotFound, driver.ErrBadConn, io.EOF - with the transaction's context alive), panicking or executing a statement through the transaction (the n-th exec may fail), optionally wrapped in Combine groups, x begin / commit / rollback each failing or not; " +
 			"oracle over the driver's event log and the returned error; non-trivial = >=1 step; distinct = distinct (step kinds, grouping, fault flags, driver event sequence)",
-		Probes:      []string{"all-steps-ok", "begin-failure", "commit-failure", "rollback-failure", "step-failure-err", "step-failure-with-well-known-error-value", "step-failure-exec", "step-failure-panic", "step-failure-panicnil", "step-failure-panicerr", "context-cancelled-before-commit"},
+		Probes:      []string{"all-steps-ok", "begin-failure", "commit-failure", "rollback-failure", "step-failure-err", "step-failure-with-well-known-error-value", "step-failure-exec", "step-failure-panic", "step-failure-panicnil", "step-failure-panicerr", "context-cancelled-before-commit", "list-of-more-than-50-steps"},
 		Assumptions: []string{"runs outside the synctest bubble (database/sql has goroutines and real mutexes of its own); no schedule is involved"},
 	})
 }
